@@ -40,7 +40,7 @@ def params : Net α → List α
   | cons ch opt rest => (if opt then ch.params else []) ++ rest.params
 /-- `setParameterVector`: every optimised child takes the next `numberOfParameters()` entries -/
 def setParams : Net α → List α → Net α
-  | leaf l, p => leaf (l.setParams p)
+  | leaf l, p => leaf (l.setParams (p.take l.numberOfParameters))
   | nil, _ => nil
   | cons ch true rest, p =>
     cons (ch.setParams (p.take ch.numberOfParameters)) true (rest.setParams (p.drop ch.numberOfParameters))
